@@ -294,7 +294,15 @@ def read_model_initial_conditions(
     # field capacity, then reset value to account for possible changes in field
     # capacity caused by capillary rise effects
     if ParamStruct.water_table == 1:
-        if (typestr == "Prop") and (datapoints[-1] == "FC"):
+        if (typestr == "Prop") and (methodstr == "Layer"):
+            # only the layers that ask for field capacity start at the adjusted field capacity
+            th = np.array(InitCond.th, dtype=float)
+            for ii in range(len(datapoints)):
+                if datapoints[ii] == "FC":
+                    idx = profile.query(f"Layer=={int(depth_layer[ii])}").index
+                    th[idx] = np.asarray(InitCond.th_fc_Adj)[idx]
+            InitCond.th = th
+        elif (typestr == "Prop") and (datapoints[-1] == "FC"):
             InitCond.th = InitCond.th_fc_Adj
 
     # If groundwater table is present in soil profile then set all water
